@@ -26,6 +26,8 @@ func (prop) Run(c core.Case) core.Outcome {
 	out := core.Outcome{Class: e.Class(), Key: e.Key()}
 	out.Checks = append(out.Checks, e.ModelChecks(true)...)
 	out.Checks = append(out.Checks, e.ChecksC03()...)
+	// gap closing round 2: a command whose selector names nothing changes nothing
+	out.Checks = append(out.Checks, e.ChecksNoTarget()...)
 	// follow-up wp-c03b: deep dump around every read-only command; fiano re-reads what it saved
 	out.Checks = append(out.Checks, roDeepChecks(in, ops)...)
 	out.Checks = append(out.Checks, reparseChecks(e)...)
@@ -33,8 +35,14 @@ func (prop) Run(c core.Case) core.Outcome {
 }
 
 func (prop) Gen(r *rand.Rand, tier string) []core.Case {
+	// gap closing round 2: selectors that are regular expressions (uefiedit/selgen.go) and nested volumes
+	// held by files of every sectioned type (uefiedit/hostcases.go); the random pattern cases come last so
+	// that the stream of the older generators is the one C02 sees
+	fixed := append(ue.HostCases(), ue.SelCases()...)
 	if tier == "thorough" {
-		return append(append(append(ue.ExhaustiveCases(3), append(ue.WrapperCases(), ue.TailCases()...)...), bigCases()...), ue.RandomCases(r, 20000, false)...)
+		cs := append(append(append(ue.ExhaustiveCases(3), append(ue.WrapperCases(), ue.TailCases()...)...), bigCases()...), fixed...)
+		return append(append(cs, ue.RandomCases(r, 20000, false)...), ue.SelRandomCases(r, 4000)...)
 	}
-	return append(append(append(ue.ExhaustiveCases(1), append(ue.WrapperCases(), ue.TailCases()...)...), bigCases()...), ue.RandomCases(r, 400, false)...)
+	cs := append(append(append(ue.ExhaustiveCases(1), append(ue.WrapperCases(), ue.TailCases()...)...), bigCases()...), fixed...)
+	return append(append(cs, ue.RandomCases(r, 400, false)...), ue.SelRandomCases(r, 250)...)
 }
